@@ -155,10 +155,40 @@ def gen_curve(rng, g, n):
 COST = {"ed25519": 1, "ed448": 3, "ristretto255": 1, "decaf448": 3, "p256": 1, "secp256k1": 1, "jq255e": 1.5, "jq255s": 1.5, "gls254": 10}
 
 
-def gen(rng, shard, nshards, curves, n_cases):
+def gen_directed_wnaf(rng, g, shard, nshards, stride):
+    """every single wNAF digit (odd d in 1..15, both signs) at every bit position, on the generator side (selects each entry of
+    the precomputed wNAF tables of u*P + v*G once) and on the point side"""
+    out = []
+    T = "g %s " % g.name
+    nn = g.n
+    bits = nn.bit_length()
+    idx = 0
+    P = g.mulgen(rng.randrange(1, nn))
+    d_ = (g.desc(P, rng) if isinstance(g, WeierG) else g.desc(P))
+    for i in range(0, bits):
+        for d in range(1, 16, 2):
+            for sgn in (1, -1):
+                idx += 1
+                if idx % nshards != shard or (idx // nshards) % stride:
+                    continue
+                k = (sgn * d << i) % nn
+                side = (idx // nshards) % 2
+                if side == 0:
+                    u, v = rng.choice([0, 1, 3]), k
+                else:
+                    u, v = k, rng.choice([0, 1, 5])
+                exp = g.add(g.mul(u, P), g.mulgen(v))
+                out.append(case1(T + "mamv %s %s %s" % (d_, g.sc(u), g.sc(v)), "OK " + g.enc(exp),
+                                 ["wnaf-single-digit", g.name + ":wnaf-single-digit", "wnaf-digit-side=%s" % ("G" if side == 0 else "P")], "single wNAF digit"))
+    return out
+
+
+def gen(rng, shard, nshards, curves, n_cases, wnaf_stride=0):
     cases = []
     for c in curves:
         g = GROUPS[c]
+        if wnaf_stride:
+            cases.extend(gen_directed_wnaf(rng, g, shard, nshards, wnaf_stride if c not in ("gls254", "ed448", "decaf448") else 4 * wnaf_stride))
         cases.extend(gen_curve(rng, g, max(1, int(n_cases / COST[c]))))
     return cases
 
@@ -183,11 +213,11 @@ def main(argv):
             cfgs = (a.configs.split(",") if a.configs else ALL_CONFIGS)
             n = int(80000 * a.scale)
         exes = build_many(cfgs)
-        m = run_sharded("c10", "gen", (curves, n // NCPU + 1), [(c, exes[c]) for c in cfgs], a.seed, timeout=3600)
+        m = run_sharded("c10", "gen", (curves, n // NCPU + 1, 2 if a.tier == "quick" else 1), [(c, exes[c]) for c in cfgs], a.seed, timeout=3600)
         rep.merge(m)
         req = []
         for c in curves:
-            req += [c + ":mamv", c + ":mamv:u=rational", c + ":mamv:u=zero"]
+            req += [c + ":mamv", c + ":mamv:u=rational", c + ":mamv:u=zero", c + ":wnaf-single-digit"]
         for c in ("ed25519", "ed448", "p256", "secp256k1", "ristretto255", "decaf448"):
             req += [c + ":vh:true", c + ":vh:false", c + ":vh:k=rational", c + ":vh:s-off-by-one"]
         req += ["ed25519:vh:torsion-A-R", "ed448:vh:torsion-A-R", "jq255e:mul128:u>=2^128-64", "jq255s:mul128:u>=2^128-64",
